@@ -4,6 +4,7 @@
   With C01 (the VE result denotes the exact posterior) this is "MAP returns a maximiser".
 -/
 import PgmVerif.Proofs.Factor
+import PgmVerif.Proofs.VEMax
 namespace PgmVerif
 open Factor
 
@@ -102,6 +103,17 @@ theorem C03_map_is_maximiser (K : Var → Nat) (f : Factor) (hf : f.WF K) (hne :
   have hin : InRange f.card (f.scope.map a) := by rw [hf.2.1]; exact inRange_map K a ha _
   have hlt := ravel_lt _ _ hin
   exact h2 _ (by rw [hf.2.2]; exact hlt)
+
+/-- **max-product variable elimination, any order**: for well-formed non-negative factors (CPDs, or CPDs reduced to the
+    evidence), maximising out the variables of ANY duplicate-free `order` the way `map_query` / `max_marginal` do
+    (multiply the working factors that mention the variable, maximise it out, file the result) leaves factors whose
+    product is  max over exactly those variables of the product of all factors — so the arg max decoded by
+    `C03_argmax_decode` from the final table is a maximiser of the exact (unnormalised) posterior, whatever the order -/
+theorem C03_max_elimination_any_order (K : Var → Nat) (fs : List Factor) (order : List Var)
+    (hfs : AllWF K fs) (hnn : NonnegF K fs) (hn : order.Nodup)
+    (hord : ∀ v ∈ order, Mentioned fs v ∧ 0 < K v) (a : Asg) (ha : Bounded K a) :
+    jointDen (veMaxRun fs order) a = maxOut K order (jointDen fs) a :=
+  (veMaxRun_spec K order fs hfs hnn hn hord).2 a ha
 
 example : (Factor.mk [0, 1] [2, 2] #[1/10, 4/10, 3/10, 2/10]).WF (fun _ => 2) ∧
     (Factor.mk [0, 1] [2, 2] #[1/10, 4/10, 3/10, 2/10]).card.prod ≠ 0 :=
